@@ -146,15 +146,34 @@ def reference_solver(case, H, K):
     return dict(U=U, Ht=Ht)
 
 
+class _Timeout(Exception):
+    pass
+
+
+def _alarm(signum, frame):
+    raise _Timeout()
+
+
+CASE_TIMEOUT = 45  # seconds; symbolic cases can be arbitrarily slow - such a case is skipped (counted), never a failure
+
+
 def _worker(args):
+    import signal
     seed, kw, props = args
     rng = random.Random(seed)
     case = gen.random_case(rng, **kw)
     t = time.time()
+    old = signal.signal(signal.SIGALRM, _alarm)
+    signal.alarm(CASE_TIMEOUT)
     try:
         fails = check_case(case, props)
+    except _Timeout:
+        fails = None
     except Exception:
         fails = [dict(what="oracle crashed: " + traceback.format_exc()[-1500:], input=case, prop="crash")]
+    finally:
+        signal.alarm(0)
+        signal.signal(signal.SIGALRM, old)
     return case, fails, time.time() - t
 
 
@@ -175,7 +194,11 @@ def sweep(ctx, ncases, props, kw, name="o_main", parallel=None):
     sigs = {}
     nontrivial = set()
     samples = []
+    skipped = 0
     for case, fails, dt in results:
+        if fails is None:
+            skipped += 1
+            continue
         sig = gen.case_signature(case)
         key = gq_key(sig)
         sigs[key] = sigs.get(key, 0) + 1
@@ -184,7 +207,7 @@ def sweep(ctx, ncases, props, kw, name="o_main", parallel=None):
         failures += fails
         if len(samples) < 3:
             samples.append(dict(signature=sig, sub=case["sub"], fully=case["fully"], orders=sorted(case["H"].keys())))
-    return dict(evaluations=len(results), nontrivial=len(nontrivial),
+    return dict(evaluations=len(results) - skipped, skipped_timeout=skipped, nontrivial=len(nontrivial),
                 rule="random exact problems (blocks<=%s, block size<=%s, params<=%s, total order<=%s); non-trivial = distinct case with dim>=2 checked to order>=2; properties checked: %s"
                 % (kw.get("max_blocks", 3), kw.get("max_size", 3), kw.get("max_params", 2), kw.get("N", 3), ",".join(props)),
                 samples=samples, failures=failures, distribution=sigs)
